@@ -416,7 +416,32 @@ func C10(c *core.Ctx) {
 		}
 		reqs = append(reqs,
 			req{"congestionMarkOverhead ≥ T(CongestionMark)+L+8", constVal("congestionMarkOverhead"), need("CongestionMark", 8)},
-			req{"lpPacketOverhead ≥ TL(LpPacket)+TL(Fragment)", constVal("lpPacketOverhead"), tlSize(tag["<LpPacket>"]) + tlSize(maxPkt) + tlSize(tag["Fragment"]) + tlSize(maxPkt)},
+			req{"lpPacketOverhead ≥ TL(LpPacket)+TL(Fragment)", func() int64 {
+				// by role, not by name: the constant the overhead function starts from
+				if ch := p.Func("fw/face", "NDNLPLinkService", "computeHeaderOverhead"); ch != nil && ch.Blocks != nil {
+					base := int64(-1)
+					core.Instrs(ch, func(in ssa.Instruction) {
+						st, ok := in.(*ssa.Store)
+						if !ok {
+							return
+						}
+						fa, isFA := st.Addr.(*ssa.FieldAddr)
+						if !isFA {
+							return
+						}
+						if _, f := core.FieldAddrName(fa); f != ovhField {
+							return
+						}
+						if k, isC := core.ConstInt(st.Val); isC && base < 0 {
+							base = k
+						}
+					})
+					if base >= 0 {
+						return base
+					}
+				}
+				return constVal("lpPacketOverhead")
+			}(), tlSize(tag["<LpPacket>"]) + tlSize(maxPkt) + tlSize(tag["Fragment"]) + tlSize(maxPkt)},
 		)
 	} else {
 		c.Und("R10.2", "definition-tags", "-", "LpPacket definition tags not found")
@@ -521,6 +546,13 @@ func C10(c *core.Ctx) {
 					for _, a := range x.Common().Args {
 						if core.Strip(a) == frame {
 							if id, ok := core.Callee(x.Common()); ok && !strings.HasPrefix(id.Pkg, "fw/core") && id.Pkg != "builtin" {
+								// a predicate of the package that only looks at the frame
+								// (exceedsMTU(frame) bool) is not a write
+								if cal := x.Common().StaticCallee(); cal != nil && id.Pkg == "fw/face" && cal.Signature.Results().Len() == 1 {
+									if bt, isB := cal.Signature.Results().At(0).Type().Underlying().(*types.Basic); isB && bt.Kind() == types.Bool {
+										continue
+									}
+								}
 								writes = append(writes, in)
 							}
 						}
@@ -537,8 +569,8 @@ func C10(c *core.Ctx) {
 					return 0, 0
 				}
 				l, isLen := core.LenOf(x)
-				if !isLen || core.Strip(l) != frame {
-					return 0, 0
+				if !isLen || !(core.Strip(l) == frame || core.Strip(core.ResolveBoundary(core.Strip(l))) == frame || core.Same(l, frame)) {
+					return 0, 0 // (the test may sit in a predicate helper shared by the transports)
 				}
 				isMTU := isCallTo(y, core.CalleeID{Pkg: "fw/face", Recv: "*", Name: "MTU"})
 				if !isMTU {
